@@ -65,6 +65,13 @@ def run(ctx, config="default"):
     # ---- S2 generator
     gv = vals(G)
     fills = [(b, t) for b, t in G.calls() if t.get("name") in ("fill_bytes", "try_fill_bytes", "fill") and t.get("trait") in ("rand::RngCore", "rand_core::RngCore", "rand::Rng")]
+    if len(fills) != 1 and fx.fn(gname) is not None:
+        # the generator delegates to a private helper with the size as an argument (`random_salt(16)`): judge the inlining view, in which
+        # the helper's body is part of the generator and the size is the constant passed
+        V_ = fx.view(gname)
+        vf_ = [(b, t) for b, t in V_.calls() if t.get("name") in ("fill_bytes", "try_fill_bytes", "fill") and t.get("trait") in ("rand::RngCore", "rand_core::RngCore", "rand::Rng")]
+        if len(vf_) == 1:
+            G, gv, fills = V_, vals(V_), vf_
     if len(fills) != 1:
         ctx.finding("C14.S2", G, "fill", "the salt generator does not fill its buffer with exactly one RngCore::fill_bytes call (found %d): the salt is not (only) fresh randomness" % len(fills))
         return
@@ -81,29 +88,52 @@ def run(ctx, config="default"):
         ctx.finding("C14.S2", G, "rng-seeded", "the generator is explicitly seeded: %s" % vstr(rngv, 4), line=ft.get("line"))
     # buffer: whole local array of >= 16 bytes
     buf_local = whole_array_arg(G, fb, 1)
-    if buf_local is None:
+    vb = _vec_buffer(gv, fb) if buf_local is None else None
+    if vb is not None:
+        # heap buffer `vec![0u8; N]` with a constant N, filled whole through deref_mut, encoded whole
+        B_, n_, via_ = vb
+        if n_ >= MIN_BYTES:
+            ctx.ok("C14.S2", G, "buffer-size", "buffer is vec![0u8; %d] (>= %d bytes = 128 bits), filled whole" % (n_, MIN_BYTES), line=ft.get("line"))
+        else:
+            ctx.finding("C14.S2", G, "buffer-size", "the salt buffer is vec![0u8; %d]: fewer than %d random bytes" % (n_, MIN_BYTES), line=ft.get("line"))
+        rp_ = peel(gv.return_value())
+        okv = False
+        if rp_.kind == "call" and rp_.d["term"].get("resolved") == "utils::base64url_encode" and rp_.kids:
+            a_ = peel(rp_.kids[0])
+            g_ = 0
+            while g_ < 4 and a_.kind == "call" and a_.d["term"].get("name") in ("deref", "as_slice", "as_ref", "borrow") and a_.kids:
+                a_ = peel(a_.kids[0])
+                g_ += 1
+            okv = a_.kind == "mut" and len(a_.kids) == 2 and peel(a_.kids[0]) is B_ and (peel(a_.kids[1]) is via_ or peel(a_.kids[1]) is B_)
+        if okv:
+            ctx.ok("C14.S2", G, "returns-encoded-buffer", "returns base64url_encode(&buf) of the whole filled buffer; the only writes are the zero initialiser and fill_bytes")
+        else:
+            ctx.finding("C14.S2", G, "returns-encoded-buffer", "the generator does not return base64url_encode of the whole freshly filled buffer: %s" % vstr(gv.return_value(), 5))
+        buf_local = -1
+    elif buf_local is None:
         ctx.finding("C14.S2", G, "buffer-whole", "fill_bytes does not receive a whole local [u8; N] array (a sub-slice or another buffer is filled)", line=ft.get("line"))
         return
-    n = G.locals[buf_local].get("array_len")
-    if G.locals[buf_local]["ty"].startswith("[u8; ") and isinstance(n, int) and n >= MIN_BYTES:
-        ctx.ok("C14.S2", G, "buffer-size", "buffer type is [u8; %d] (>= %d bytes = 128 bits), filled whole" % (n, MIN_BYTES), line=ft.get("line"))
-    else:
-        ctx.finding("C14.S2", G, "buffer-size", "the salt buffer is %s: fewer than %d random bytes" % (G.locals[buf_local]["ty"], MIN_BYTES), line=ft.get("line"))
-    # returns base64url_encode(whole buffer) after the fill, no other write
-    rv = gv.return_value()
-    rp = peel(rv)
-    okr = False
-    if rp.kind == "call" and rp.d["term"].get("resolved") == "utils::base64url_encode":
-        eb = rp.d["bb"]
-        if whole_array_arg(G, eb, 0) == buf_local and eb in cfg.reachable(G, [fb]):
-            muts = [m for m in common.mutations(G) if m["target"] and m["target"]["root"] == "local" and m["target"]["local"] == buf_local]
-            extra = [m for m in muts if not (m["how"] == "mutarg" and m["bb"] == fb) and not (m["how"] == "assign" and not m["target"]["path"] and fb in cfg.reachable(G, [m["bb"]]))]   # (a statement of the fill's own block runs before the call that ends it)
-            if not extra:
-                okr = True
-    if okr:
-        ctx.ok("C14.S2", G, "returns-encoded-buffer", "returns base64url_encode(&buf) of the whole filled buffer; the only writes are the zero initialiser and fill_bytes")
-    else:
-        ctx.finding("C14.S2", G, "returns-encoded-buffer", "the generator does not return base64url_encode of the whole freshly filled buffer: %s" % vstr(rv, 5))
+    if buf_local != -1:
+        n = G.locals[buf_local].get("array_len")
+        if G.locals[buf_local]["ty"].startswith("[u8; ") and isinstance(n, int) and n >= MIN_BYTES:
+            ctx.ok("C14.S2", G, "buffer-size", "buffer type is [u8; %d] (>= %d bytes = 128 bits), filled whole" % (n, MIN_BYTES), line=ft.get("line"))
+        else:
+            ctx.finding("C14.S2", G, "buffer-size", "the salt buffer is %s: fewer than %d random bytes" % (G.locals[buf_local]["ty"], MIN_BYTES), line=ft.get("line"))
+        # returns base64url_encode(whole buffer) after the fill, no other write
+        rv = gv.return_value()
+        rp = peel(rv)
+        okr = False
+        if rp.kind == "call" and rp.d["term"].get("resolved") == "utils::base64url_encode":
+            eb = rp.d["bb"]
+            if whole_array_arg(G, eb, 0) == buf_local and eb in cfg.reachable(G, [fb]):
+                muts = [m for m in common.mutations(G) if m["target"] and m["target"]["root"] == "local" and m["target"]["local"] == buf_local]
+                extra = [m for m in muts if not (m["how"] == "mutarg" and m["bb"] == fb) and not (m["how"] == "assign" and not m["target"]["path"] and fb in cfg.reachable(G, [m["bb"]]))]   # (a statement of the fill's own block runs before the call that ends it)
+                if not extra:
+                    okr = True
+        if okr:
+            ctx.ok("C14.S2", G, "returns-encoded-buffer", "returns base64url_encode(&buf) of the whole filled buffer; the only writes are the zero initialiser and fill_bytes")
+        else:
+            ctx.finding("C14.S2", G, "returns-encoded-buffer", "the generator does not return base64url_encode of the whole freshly filled buffer: %s" % vstr(rv, 5))
     enc = fx.fn("utils::base64url_encode")
     if enc is not None:
         ev = vals(enc).return_value()
@@ -235,6 +265,20 @@ def _sha256_b64(fx, bv):
             return True, "%s(Sha256::new().update(data).finalize())" % enc
         return False, "hasher is not sha2::Sha256 updated exactly once with the whole parameter"
     return False, "no SHA-256 computation found"
+
+
+def _vec_buffer(gv, fb):
+    """(B, n, via) when the fill's buffer argument is `deref_mut(B)` of B = vec![0u8; n] with a constant n"""
+    a = peel(gv.call_node(fb).kids[1])
+    B = a   # (peel looks through deref_mut / as_mut_slice: the whole vector)
+    if a.kind == "call" and a.d["term"].get("name") in ("deref_mut", "as_mut_slice", "as_mut") and a.kids:
+        B = peel(a.kids[0])
+    if not (B.kind == "call" and (B.d["term"].get("resolved") or "") == "std::vec::from_elem" and len(B.kids) == 2):
+        return None
+    z, n = const_value(B.kids[0]), const_value(B.kids[1])
+    if z != 0 or not isinstance(n, int) or isinstance(n, bool):
+        return None
+    return (B, n, a)
 
 
 def whole_array_arg(fn, bb, argpos):
